@@ -59,6 +59,7 @@ func runC05(c *Ctx) error {
 		return err
 	}
 	c05DeclaredDirectories(c, tree)
+	c05PayloadOfThePlan(c, tree)
 	c05SameBaseNames(c, tree)
 	c05ConfigRoute(c, tree)
 	return c05Random(c, tree)
@@ -683,4 +684,39 @@ func genPlanScenario(r *rng.R, t *SrcTree) (wire.PlanCfg, []wire.Content) {
 		raw[i] = genContent(r, t)
 	}
 	return cfg, raw
+}
+
+// c05PayloadOfThePlan: the plan is what gets packaged – every planned entry reaches the archive under its planned
+// destination, names that begin with a dot at the root included, and two planned entries never become one member.
+func c05PayloadOfThePlan(c *Ctx, t *SrcTree) {
+	fam := c.Rep.Family("payload-of-the-plan", "exhaustive: content lists whose destinations begin with a dot directly under the root, next to the same names without the dot (/.acme/state/marker and /acme/state/marker, /.autorelabel, /..data/x) x 5 formats: the payload of the built package, decoded by the independent readers, against what the planned entries denote (spec of C01); non-trivial = always")
+	fam.Exhaustive = true
+	tool := filepath.Join(t.Root, "bin/tool")
+	conf := filepath.Join(t.Root, "etc/app.conf")
+	lists := [][]wire.Content{
+		{{Src: tool, Dst: "/.acme/state/marker"}, {Src: conf, Dst: "/acme/state/marker"}},
+		{{Src: tool, Dst: "/.autorelabel"}, {Src: conf, Dst: "/etc/app/app.conf", Type: "config"}},
+		{{Src: tool, Dst: "/..data/x"}, {Dst: "/.cache/", Type: "dir"}, {Src: "/.cache", Dst: "/.latest", Type: "symlink"}},
+	}
+	for _, raw := range lists {
+		s := &PkgSpec{Raw: raw, Umask: 0o022, MTime: 1700000000}
+		for _, f := range Formats {
+			dec, plan, ok := payloadCase(c, fam, "payload-of-the-plan", s, f)
+			if !ok {
+				continue
+			}
+			ans, err := c.D.Ask(fmt.Sprintf("c01check %s %s %s", f, wire.EncContentsOut(plan), wire.EncMembers(dec.Members)))
+			if err != nil {
+				c.Rep.Note("driver: %v", err)
+				return
+			}
+			if strings.HasPrefix(ans, "violated ") {
+				cl := strings.TrimPrefix(ans, "violated ")
+				in := s.Input()
+				in["format"] = f
+				c.Rep.Find(report.Finding{Property: "C05", Family: "payload-of-the-plan", Shape: f + ":payload-differs-from-the-plan:" + strings.SplitN(cl, "_", 2)[0],
+					What: "the payload of the " + f + " package is not what the planned entries denote: " + cl, Input: in})
+			}
+		}
+	}
 }
